@@ -65,6 +65,23 @@ def _c15_text_only(case, v):
     return 'seq' in case and has(case['seq'])
 
 
+@family('C12_align_own_content')
+def _c12_align_own(case, v):
+    """the oracle classified the misaligned closing tag from the denoted tree: its element has multi-line own text, or is an empty leaf
+    under formatLeafNode / formatForce (key align-own-content); any other misaligned closing tag has key `align` and is not covered"""
+    return key_of(v) == 'align-own-content'
+
+
+@family('C19_float_floor')
+def _c19_float_floor(case, v):
+    """the documented expression tree, evaluated in IEEE doubles by the generator (independently of the implementation), already
+    differs from its exact value: a `\\` whose double quotient falls on the other side of an integer"""
+    from fractions import Fraction as F
+    if case.get('fval') in (None, 'inf', '-inf', 'nan') or not isinstance(case.get('val'), list): return False
+    w = F(case['val'][0], case['val'][1]); f = F(case['fval'])
+    return abs(f - w) > F(1, 10 ** 9) * max(1, abs(w))
+
+
 def attribute(known, prop, domname, dom, case, v):
     for f in known:
         if f.get('domain') and f['domain'] != domname: continue
